@@ -74,6 +74,18 @@ func c20Ran(o *mon.Obj, name string) bool {
 	return d.Panic == nil && d.CfgErr == nil && d.Applies && d.InWindow
 }
 
+func subjectCN(s *gen.Spec) string {
+	defer func() { _ = recover() }()
+	for _, rdn := range s.Subject.Children {
+		for _, atv := range rdn.Children {
+			if len(atv.Children) == 2 && atv.Children[0].OIDString() == gen.OIDCN {
+				return string(atv.Children[1].Content)
+			}
+		}
+	}
+	return ""
+}
+
 func isFinding(st lint.LintStatus) bool {
 	return st == lint.Notice || st == lint.Warn || st == lint.Error
 }
@@ -103,6 +115,11 @@ func c20Judge(c *mon.Ctx, o *mon.Obj, groups map[string]bool, how string) {
 			// "reach the same conclusion": decided with the reference life-cycle (scope from the parsed fields, a
 			// fresh instance's CheckApplies, the registered window), for the same-status pairs only.
 			if p.rel != relEqual || ra.Status == lint.NE || rb.Status == lint.NE || ra.Status == rb.Status {
+				continue
+			}
+			if p.group == "dns" && groups["cn-variant"] {
+				// with a common name present the BR copies have one more name to look at, and answer NA when THAT name
+				// cannot be split into labels: not the same content, only verdict against verdict is compared here
 				continue
 			}
 			if c20Ran(o, p.a) && c20Ran(o, p.b) {
@@ -292,9 +309,35 @@ func init() {
 					gns = append(gns, e.Node())
 					labels = append(labels, e.Label)
 				}
+				if rng.Intn(2) == 0 && len(gns) > 0 {
+					// the same names with a common name again: a CASE VARIANT of one of the dNSNames (for the label rules the
+					// same content, but not an exact copy of a SAN value), more names and a few iPAddresses around them -
+					// other lints that walk the names run between the twins and must leave the names alone
+					dp := gen.DNSPool()
+					for k := rng.Intn(5); k > 0; k-- {
+						e := dp[rng.Intn(len(dp))]
+						gns = append(gns, e.Node())
+						labels = append(labels, e.Label)
+					}
+					cn := ""
+					if first := gns[0]; len(first.Content) > 0 {
+						cn = strings.ToUpper(string(first.Content))
+						if cn == string(first.Content) {
+							cn = strings.ToLower(cn)
+						}
+					}
+					for k := rng.Intn(3); k > 0; k-- {
+						gns = append(gns, gen.GNIP([]byte{byte(8 + k), 8, 4, byte(rng.Intn(250) + 1)}))
+					}
+					if cn != "" && cn != string(gns[0].Content) {
+						spec.Subject = gen.Name(gen.A(gen.OIDC, "US"), gen.A(gen.OIDO, "Example Org"), gen.A(gen.OIDCN, cn))
+						groups["cn-variant"] = true
+						c.R.Count("dns_pairs_under_a_case_variant_common_name", 1)
+					}
+				}
 				spec.ReplaceExt(gen.ExtSAN(false, gns...))
 				groups["dns"] = true
-				how = fmt.Sprintf("empty CN, SAN %v", labels)
+				how = fmt.Sprintf("CN %q, SAN %v", subjectCN(spec), labels)
 			case 2, 3: // SAN == IAN payload
 				spec = gen.TLSLeaf(nb, "www.example.com")
 				k := rng.Intn(5)
